@@ -78,7 +78,17 @@ structure JAccount where
   cold : Bool
   /-- the slots the journal has loaded so far with their present values (access-list keys, SLOADs) -/
   slots : List (Slot × Nat)
+  /-- `AccountStatus::LoadedAsNotExisting`: `db.basic` answered `None` when the journal first loaded
+  the address. Never cleared within the transaction (not by `mark_created`, `touch`, a balance
+  transfer or `set_code`), so it is still set after the address has been deployed to. -/
+  notExisting : Bool := false
 deriving Repr
+
+/-- `Account::from(info)` vs `Account::new_not_existing()`: the flag a fresh load sets -/
+def loadedFlag (r : Reply) : Bool :=
+  match r with
+  | .info (some _) => false
+  | _ => true
 
 /-- `Account::from(info)` / `Account::new_not_existing()` as far as creation looks at it -/
 def targetOfInfo : Option Info → Target
@@ -126,21 +136,22 @@ def journalEntry (db : Db) (a : Addr) : Warmth → Db × Option JAccount
   | .accessList keys =>
     let r := db.query (.basic a)
     let p := preloadKeys r.1 a keys []
-    (p.1, some { target := targetOfInfo (infoOfReply r.2), cold := false, slots := p.2 })
+    (p.1, some { target := targetOfInfo (infoOfReply r.2), cold := false, slots := p.2, notExisting := loadedFlag r.2 })
   | .opcodeLoad =>
     let r := db.query (.basic a)
-    (r.1, some { target := targetOfInfo (infoOfReply r.2), cold := false, slots := [] })
+    (r.1, some { target := targetOfInfo (infoOfReply r.2), cold := false, slots := [], notExisting := loadedFlag r.2 })
   | .called =>
     let r := db.query (.basic a)
-    (r.1, some { target := { targetOfInfo (infoOfReply r.2) with touched := true }, cold := false, slots := [] })
+    (r.1, some { target := { targetOfInfo (infoOfReply r.2) with touched := true }, cold := false, slots := [],
+                 notExisting := loadedFlag r.2 })
   | .retried =>
     -- the failed attempt ran `load_account` and `has_storage`, and its checkpoint was reverted
     let r := db.query (.basic a)
     let r2 := r.1.query (.hasStorage a)
-    (r2.1, some { target := targetOfInfo (infoOfReply r.2), cold := false, slots := [] })
+    (r2.1, some { target := targetOfInfo (infoOfReply r.2), cold := false, slots := [], notExisting := loadedFlag r.2 })
   | .revertedCold =>
     let r := db.query (.basic a)
-    (r.1, some { target := targetOfInfo (infoOfReply r.2), cold := true, slots := [] })
+    (r.1, some { target := targetOfInfo (infoOfReply r.2), cold := true, slots := [], notExisting := loadedFlag r.2 })
 
 /-- `JournaledState::load_account`: the (possibly freshly loaded) entry, marked warm, and `is_cold`.
 `preloaded` = the address is in `warm_preloaded_addresses`. -/
@@ -149,7 +160,7 @@ def loadAccount (db : Db) (a : Addr) (j : Option JAccount) (preloaded : Bool) : 
   | some acc => (db, { acc with cold := false }, acc.cold)
   | none =>
     let r := db.query (.basic a)
-    (r.1, { target := targetOfInfo (infoOfReply r.2), cold := false, slots := [] }, !preloaded)
+    (r.1, { target := targetOfInfo (infoOfReply r.2), cold := false, slots := [], notExisting := loadedFlag r.2 }, !preloaded)
 
 /-- `make_create_frame` / `make_eofcreate_frame` from the point where the address is known, on the
 journal entry `j`: `load_account` (its `is_cold` is not looked at), `db.has_storage`,
@@ -158,6 +169,14 @@ def makeCreateFrameJ (db : Db) (a : Addr) (j : Option JAccount) (preloaded : Boo
     (value gasLimit : Nat) (spuriousDragon : Bool) : Outcome :=
   let l := loadAccount db a j preloaded
   makeCreateFrame l.1 a l.2.1.target value gasLimit spuriousDragon
+
+/-- `create_account_checkpoint` on the journal's account: the test reads `info.code_hash`,
+`info.nonce` and the `address_has_storage` argument — NOT the account's status flags; the account
+afterwards carries the same `LoadedAsNotExisting` flag as before -/
+def createAccountCheckpointJ (acc : JAccount) (addressHasStorage : Bool) (value gasLimit : Nat) (spuriousDragon : Bool) :
+    Outcome × JAccount :=
+  let o := createAccountCheckpoint acc.target addressHasStorage value gasLimit spuriousDragon
+  (o, { acc with target := o.target })
 
 /-- the same with the journal entry produced by one of the ways of becoming warm -/
 def makeCreateFrameW (db : Db) (a : Addr) (w : Warmth) (value gasLimit : Nat) (spuriousDragon : Bool) : Outcome :=
@@ -168,5 +187,67 @@ def makeCreateFrameW (db : Db) (a : Addr) (w : Warmth) (value gasLimit : Nat) (s
 def loadedTarget (db : Db) (a : Addr) (w : Warmth) : Target :=
   let e := journalEntry db a w
   (loadAccount e.1 a e.2 false).2.1.target
+
+/-! ## What happened to the target earlier in the same transaction
+
+The journal's account for the target is not only "as loaded": an earlier creation in the same
+transaction may have succeeded on it (CREATE2 with the same salt and init code) and the new
+contract may have self-destructed since (the account stays in the journal, with its nonce and code,
+until the end of the transaction — before and after Cancun, as it was created in this transaction);
+or it was loaded as not existing and then funded by a value CALL. In all these cases the
+`LoadedAsNotExisting` flag of the first load is still set. -/
+
+inductive History
+  /-- nothing before the creation -/
+  | untouched
+  /-- an earlier creation onto the address succeeded and deployed code with this hash; still alive -/
+  | createdAlive (codeHash : Nat)
+  /-- … and the deployed contract then executed SELFDESTRUCT (its balance moved out) -/
+  | createdDestroyed (codeHash : Nat)
+  /-- loaded by BALANCE, then a CALL transferred `amount` to it (no code runs there) -/
+  | funded (amount : Nat)
+deriving Repr
+
+/-- the journal's account after a successful creation whose init code returned code with hash
+`codeHash` (`set_code`); `LoadedAsNotExisting` is kept -/
+def afterCreation (j : JAccount) (o : Outcome) (codeHash : Nat) : JAccount :=
+  { j with target := { o.target with codeHash := codeHash } }
+
+/-- SELFDESTRUCT of the contract: balance moved to the beneficiary, the rest stays until the end of the transaction -/
+def afterSelfdestruct (j : JAccount) : JAccount := { j with target := { j.target with balance := 0 } }
+
+/-- a value transfer to the account (`transfer` touches it) -/
+def afterFunding (j : JAccount) (amount : Nat) : JAccount :=
+  { j with target := { j.target with balance := j.target.balance + amount, touched := true } }
+
+structure HOutcome where
+  /-- result of the earlier creation (`createdAlive` / `createdDestroyed`) -/
+  first : Option Result
+  /-- the journal's account when the creation in question reaches it -/
+  entry : JAccount
+  outcome : Outcome
+deriving Repr
+
+/-- the creation in question after the history `h` (both creations pass `value` and `gasLimit`) -/
+def makeCreateFrameH (db : Db) (a : Addr) (h : History) (value gasLimit : Nat) (spuriousDragon : Bool) : HOutcome :=
+  match h with
+  | .untouched =>
+    let l := loadAccount db a none false
+    { first := none, entry := l.2.1, outcome := makeCreateFrameJ db a none false value gasLimit spuriousDragon }
+  | .funded amount =>
+    let e := journalEntry db a .opcodeLoad
+    let l := loadAccount e.1 a e.2 false
+    let j := afterFunding l.2.1 amount
+    { first := none, entry := j, outcome := makeCreateFrameJ l.1 a (some j) false value gasLimit spuriousDragon }
+  | .createdAlive ch =>
+    let l := loadAccount db a none false
+    let o1 := makeCreateFrame l.1 a l.2.1.target value gasLimit spuriousDragon
+    let j := if o1.result = .frame then afterCreation l.2.1 o1 ch else l.2.1
+    { first := some o1.result, entry := j, outcome := makeCreateFrameJ l.1 a (some j) false value gasLimit spuriousDragon }
+  | .createdDestroyed ch =>
+    let l := loadAccount db a none false
+    let o1 := makeCreateFrame l.1 a l.2.1.target value gasLimit spuriousDragon
+    let j := if o1.result = .frame then afterSelfdestruct (afterCreation l.2.1 o1 ch) else l.2.1
+    { first := some o1.result, entry := j, outcome := makeCreateFrameJ l.1 a (some j) false value gasLimit spuriousDragon }
 
 end Revm.Model.Collision
